@@ -3,7 +3,7 @@
    state is literally unchanged.  No assumption that the documents share a schema. *)
 From Coq Require Import ZArith NArith List Bool Lia Arith.
 From FV.Model Require Import Bytes Bson Metrics Codec Collector Wf RoundTrip CollectorOk.
-From FV.Proofs Require Import BytesProofs BsonProofs MetricsProofs CodecChunk CodecProofs CollectorHyps CollectorBase.
+From FV.Proofs Require Import BytesProofs BsonProofs MetricsProofs CodecChunk CodecProofs CollectorBase.
 Import ListNotations.
 Open Scope Z_scope.
 
@@ -140,8 +140,6 @@ Proof.
     + rewrite <- Hmax, <- Ecs, batch_eta. reflexivity.
     + destruct Hwhy as [Hw|Hw]; [lia|exact Hw].
 Qed.
-
-Definition info_step' := info_step.
 
 Lemma info_fold' : forall n cs gs, Forall2 (bch D n) cs gs -> forall m s,
   snd (fold_left info_step cs (m, s)) = s + glen (concat gs).
